@@ -14,8 +14,15 @@ fn decode_must_not_be_reached<D: bincode::de::Decode<()>, C: bincode::config::Co
     panic!("the body of a foreign image was handed to the decoder");
 }
 
+/// error-message formatting is not part of the property and is what makes CBMC explode; the ARGUMENTS of a `format!` are still
+/// evaluated before this is called, so a panic while computing them is still found
+fn message_text_is_irrelevant(_args: core::fmt::Arguments<'_>) -> String {
+    String::new()
+}
+
 #[kani::proof]
 #[kani::stub(bincode::decode_from_std_read, decode_must_not_be_reached)]
+#[kani::stub(alloc::fmt::format, message_text_is_irrelevant)]
 #[kani::unwind(24)]
 fn read_rejects_every_foreign_header() {
     let bytes: [u8; 21] = kani::any();
@@ -32,6 +39,7 @@ fn read_rejects_every_foreign_header() {
 
 #[kani::proof]
 #[kani::stub(bincode::decode_from_std_read, decode_must_not_be_reached)]
+#[kani::stub(alloc::fmt::format, message_text_is_irrelevant)]
 #[kani::unwind(24)]
 fn read_rejects_every_stream_shorter_than_the_magic() {
     let bytes: [u8; 21] = kani::any();
